@@ -11,10 +11,18 @@ const ID_SEP: &str = ":";
 
 #[allow(unused)]
 pub fn longid() -> String {
+    #[cfg(feature = "verif")]
+    if let Some(id) = crate::verif::next_id(21) {
+        return id;
+    }
     nanoid!(21, &ALPHABETS)
 }
 
 pub fn shortid() -> String {
+    #[cfg(feature = "verif")]
+    if let Some(id) = crate::verif::next_id(8) {
+        return id;
+    }
     nanoid!(8, &ALPHABETS)
 }
 
